@@ -13,7 +13,7 @@ from pycparser import c_ast
 
 from . import sym, trees
 from .kse import HarnessError
-from .llfront import ICMP, split_top, type_value
+from .llfront import ICMP, icmp_pred, split_top, type_value
 from .sym import band, bimplies, bnot, bor, icmp, iadd, imul, isub, ite, zi
 
 VAR_CTYPE = {"x": "int", "y": "int", "u": "double", "v": "double", "p": "bool", "q": "bool",
@@ -283,12 +283,13 @@ def ll_meaning(fn, env: trees.Env, param_names):
                     r = sym.beq(va, vb)
                     regs[dest] = r if pred == "eq" else bnot(r)
                 else:
-                    regs[dest] = icmp(ICMP[pred], va, vb)
+                    regs[dest] = icmp_pred(pred, va, vb)
                 continue
             if op == "zext":
                 mm = re.match(r"(\S+)\s+(\S+)\s+to\s+(\S+)", rest)
                 v = val(mm.group(1), mm.group(2))
-                regs[dest] = ite(v, 1, 0) if mm.group(1) == "i1" else v
+                # zext of an i32 reads the bit pattern as unsigned
+                regs[dest] = ite(v, 1, 0) if mm.group(1) == "i1" else ite(icmp("<", v, 0), iadd(v, 2**32), v)
                 continue
             if op == "select":
                 c, a, b = split_top(rest)
